@@ -1,6 +1,5 @@
 (* Proofs/CIDictFindings.v -- the extracted instance (keys = str with the ASCII case mapping, values = Z)
-   meets the hypotheses of the generic theorems, and concrete witnesses (by computation) of the places
-   where the faithful model deviates from the reference map of property C13. *)
+   meets the hypotheses of the generic theorems, and the inputs of the repaired findings as regression facts (by computation). *)
 From Pybtex Require Import Base.Prelude Base.PyChar Base.PyStr Model.CIDict Model.CIDictStr Spec.CIMap Spec.CIRel.
 
 Lemma str_lower_idem : forall s : str, lower (lower s) = lower s.
@@ -10,17 +9,7 @@ Qed.
 Lemma str_keqb_spec : forall a b : str, reflect (a = b) (str_eqb a b).
 Proof. exact str_eqb_spec. Qed.
 
-(* C13-F4: CaseInsensitiveDefaultDict.setdefault(k, x) of an absent key returns the factory's default and does
-   not insert (MutableMapping.setdefault reads self[key], which never raises KeyError here); the reference
-   map inserts x and returns it. *)
-Lemma default_setdefault_not_inserting :
-  let c := s_init ClsDefault 0 [] in
-  s_step c (OSetdefault (s2l "k") 5%Z) = (c, EOk (RVal 0%Z)) /\
-  spec_step str Z str_eqb lower (Some 0%Z) (abs str Z c) (OSetdefault (s2l "k") 5%Z) =
-    ([(s2l "k", (s2l "k", 5%Z))], EOk (RVal 5%Z)).
-Proof. vm_compute. auto. Qed.
-
-(* the inputs of the repaired findings C13-F1, C13-F2, C13-F3, as regression examples *)
+(* the inputs of the repaired findings C13-F1 .. C13-F4, as regression examples *)
 Lemma f1_regression :
   let c := run_state str Z str_eqb lower (s_init ClsDefault 0 []) [OSet (s2l "A") 1%Z; OLower] in
   ci_items str Z str_eqb lower c = EOk [(s2l "a", 1%Z)] /\ ci_getitem str Z str_eqb lower c (s2l "b") = EOk 0%Z.
@@ -30,4 +19,10 @@ Lemma f2_regression :
 Proof. vm_compute. auto. Qed.
 Lemma f3_regression :
   abs str Z (ci_init str Z str_eqb lower ClsPlain [(s2l "a", 1%Z); (s2l "A", 2%Z); (s2l "a", 3%Z)]) = [(s2l "a", (s2l "a", 3%Z))].
+Proof. vm_compute. auto. Qed.
+Lemma f4_regression :
+  let c := s_init ClsDefault 0 [] in
+  s_step c (OSetdefault (s2l "k") 5%Z) = (ci_setitem str Z str_eqb lower c (s2l "k") 5%Z, EOk (RVal 5%Z)) /\
+  spec_step str Z str_eqb lower (Some 0%Z) (abs str Z c) (OSetdefault (s2l "k") 5%Z) =
+    ([(s2l "k", (s2l "k", 5%Z))], EOk (RVal 5%Z)).
 Proof. vm_compute. auto. Qed.
